@@ -42,6 +42,7 @@ def gen_spec(rng):
         T.append({"events": sorted(set(rng.sample(evs, min(len(evs), rng.choice([1, 1, 2]))))), "src": src, "dst": dst,
                   "cond": rng.choice([[], [], ["ok"], ["ok", "fine"]]), "unless": rng.choice([[], [], ["blocked"]]), "internal": internal})
     return {"ids": ids, "final": final, "value": value, "events": evs, "transitions": T,
+            "enter": [s for s in ids if rng.random() < 0.4], "exit": [s for s in ids if s != final and rng.random() < 0.3],
             "walk": [rng.choice(evs) for _ in range(rng.randint(0, 5))]}
 
 
@@ -51,7 +52,12 @@ def build(spec):
     ns = {}
     st = {}
     for k, s in enumerate(spec["ids"]):
-        st[s] = State(value=spec["value"][s], initial=(k == 0), final=(s == spec["final"]))
+        kw = {}
+        if s in spec.get("enter", []):
+            kw["enter"] = "noted"
+        if s in spec.get("exit", []):
+            kw["exit"] = "noted"
+        st[s] = State(value=spec["value"][s], initial=(k == 0), final=(s == spec["final"]), **kw)
         ns[s] = st[s]
     for t in spec["transitions"]:
         kw = {"event": " ".join(t["events"])}
@@ -121,9 +127,18 @@ def check_graph(spec, machine, graph, current):
         if highlighted != (n["name"] == current):
             return f"state {n['name']}: highlighted={highlighted} but current state is {current!r}"
         internals = [t for t in spec["transitions"] if t["internal"] and t["src"] == n["name"]]
+        label = n["label"].replace("\\n", "\n")
         for t in internals:
-            if " ".join(t["events"]) not in n["label"]:
-                return f"state {n['name']}: internal transition on {t['events']} is not listed in its label {n['label']!r}"
+            want = " ".join(t["events"]) + " / noted"
+            if want not in label:
+                return f"state {n['name']}: internal transition is not listed as {want!r} in its label {n['label']!r}"
+        for phase, key in (("entry", "enter"), ("exit", "exit")):
+            has = n["name"] in spec.get(key, [])
+            line = next((ln for ln in label.split("\n") if ln.startswith(phase + " / ")), None)
+            if has and (line is None or "noted" not in line or "!noted" in line):
+                return f"state {n['name']}: its {phase} action `noted` is drawn as {line!r} (label {n['label']!r})"
+            if not has and line is not None and "noted" in line:
+                return f"state {n['name']}: an {phase} action is drawn that the state does not have: {line!r}"
     return None
 
 
